@@ -1117,6 +1117,9 @@ def pure_entry_loops(rep: Report):
                 same = ix.scal_eq(fr.vars["H"].at(r_, c_), Hin(r_, c_))
                 zeroed = sand(SBool.mk(zi(r_) == zi(row)), SBool.mk(zi(c_) == zi(row) - 1), ix.scal_eq(fr.vars["H"].at(r_, c_), ix.QScal(Fraction(0))), SBool.mk(SMALLE(zi(row))))
                 c.require("step", sor(same, zeroed), "the scan changed at most the sub-diagonal entry of the row that passed the deflation test, and set it to zero", key="scan.break.only_the_tested_entry_is_zeroed")
+            # what the matrix-level case assumes about the window end after the scan (whichever way the scan was left)
+            c.require("step", sand(SBool.mk(zi(fr.vars["hi"]) >= zi(fr.vars["lo"])), SBool.mk(zi(fr.vars["hi"]) <= zi(g["scan_in"][1]))),
+                      "after the scan lo <= hi <= (hi before the scan)", key="scan.window_end_between_lo_and_old_hi")
             raise PathAbort("the rest of the pass is the business of the matrix-level case")
 
         def havoc(self, it, fr, k):
@@ -1188,6 +1191,24 @@ def pure_entry_loops(rep: Report):
             c.assume(L >= 0)
             fr.vars["diag"] = {"iterations": SymList(L, "iterations"), "converged": False, "iterations_run": 0}
 
+    class ShrinkA(LoopRule):
+        """while m_active > 1 and ...: m_active -= 1   keeps  1 <= m_active <= (its value before the loop)  - what the matrix-level case assumes"""
+        modifies = ("m_active",)
+
+        def establish(self, it, fr, start):
+            cur().ghost["m_before_shrink"] = fr.vars["m_active"]
+
+        def havoc(self, it, fr, k):
+            c = cur()
+            m2 = SInt.var(c.fresh_name("m_active"))
+            c.assume(sand(m2 >= 1, m2 <= c.ghost["m_before_shrink"]))
+            fr.vars["m_active"] = m2
+
+        def preserve(self, it, fr, k):
+            c = cur()
+            c.require("inv.preserve", sand(SBool.mk(zi(fr.vars["m_active"]) >= 1), SBool.mk(zi(fr.vars["m_active"]) <= zi(c.ghost["m_before_shrink"]))),
+                      "the active size stays between 1 and its value before the loop", key="schur.shrink.inv.preserve")
+
     def k_contract_q(I, args, kwargs):
         R_, m_, n_ = args
         return fresh_q("Contr", (m_, n_))            # (argument: an index-level array or an AnyReal)
@@ -1219,7 +1240,7 @@ def pure_entry_loops(rep: Report):
     first = zero_rule("H", formula_first, "first")
     first.modifies = tuple(first.modifies) + ("deflated_idx",)
     cases[QS] = {(QS, 2): at(MainAS(), None, "k<max_iterandm_active>1"), (QS, 3): at(first, "i", "range(1,m_active)"),
-                 (QS, 4): at(HavocAll({"m_active": lambda it, fr: fr.vars["m_active"]}), None, "m_active>1and_quat_scalar_abs(H[m_active-1,m_active-2])<=tol"),
+                 (QS, 4): at(ShrinkA(), None, "m_active>1and_quat_scalar_abs(H[m_active-1,m_active-2])<=tol"),
                  (QS, 5): at(HavocAll({"subdiag_norm": lambda it, fr: SReal.var(cur().fresh_name("sdn"))}), "i", "range(1,m_active)"),
                  (QS, 7): at(zero_rule("H_tmp", formula_second, "second"), "i", "range(1,m_active)"),
                  (QS, 9): at(HavocAll({"H_final": arb("Hfin")}), "i", "range(n)")}
